@@ -52,6 +52,18 @@ fn parse_extends_conditional_type(
     p: &mut LuaDocParser,
     cm: &mut CompleteMarker,
 ) -> Result<(), LuaParseError> {
+    // the branches are parsed by `parse_type` again: `A extends B and A extends B and ...`
+    // nests without passing through an open `parse_sub_type`
+    enter_level(p)?;
+    let result = parse_extends_conditional_type_impl(p, cm);
+    p.leave_level();
+    result
+}
+
+fn parse_extends_conditional_type_impl(
+    p: &mut LuaDocParser,
+    cm: &mut CompleteMarker,
+) -> Result<(), LuaParseError> {
     let extends_range = p.current_token_range();
     let condition_m = cm.precede(p, LuaSyntaxKind::TypeBinary);
 
@@ -100,16 +112,23 @@ fn parse_extends_conditional_type(
     Ok(())
 }
 
+/// Enter one level of nesting, or fail with a doc error when the type is nested too deeply.
+fn enter_level(p: &mut LuaDocParser) -> Result<(), LuaParseError> {
+    if p.enter_level() {
+        return Ok(());
+    }
+
+    Err(LuaParseError::doc_error_from(
+        &t!("type has too many syntax levels"),
+        p.current_token_range(),
+    ))
+}
+
 // <type>
 // keyof <type>, -1
 // <type> | <type> , <type> & <type>, <type> in keyof <type>
 fn parse_sub_type(p: &mut LuaDocParser, limit: i32) -> DocParseResult {
-    if !p.enter_level() {
-        return Err(LuaParseError::doc_error_from(
-            &t!("type has too many syntax levels"),
-            p.current_token_range(),
-        ));
-    }
+    enter_level(p)?;
     let result = parse_sub_type_impl(p, limit);
     p.leave_level();
     result
